@@ -164,7 +164,34 @@ fn transparent_script(rng: &mut Rng, max_len: usize) -> Vec<Act> {
 
 fn gen_stage(rng: &mut Rng, corpus: &Corpus, second: bool) -> Stage {
     // texts
-    let (rule_v, data_v): (Value, Value) = match rng.weighted(&[35, 35, 8, 12, 10, 4, 3]) {
+    let (rule_v, data_v): (Value, Value) = match rng.weighted(&[35, 35, 8, 12, 10, 4, 3, 5]) {
+        7 => {
+            // exact lengths: a result line, a log line or a data text whose byte length sits on (or one or
+            // two bytes beside) a multiple of a power of two - where buffers, chunks and pages end
+            let b = *rng.pick(&[64usize, 128, 256, 512, 1024, 2048, 4096, 8192, 16384, 32768, 65536]);
+            let k = *rng.pick(&[1usize, 1, 1, 2, 3]);
+            let d = *rng.pick(&[-2i64, -1, 0, 0, 0, 1, 2]);
+            let total = ((b * k) as i64 + d).max(3) as usize;
+            // the serialised string is its content plus two quotes (no character below needs an escape)
+            let content_len = total - 2;
+            let mut text = String::with_capacity(content_len);
+            let wide = rng.chance(1, 3);
+            while text.len() < content_len {
+                let left = content_len - text.len();
+                if wide && left >= 3 && rng.chance(1, 2) {
+                    text.push('日');
+                } else {
+                    text.push((b'a' + (text.len() % 26) as u8) as char);
+                }
+            }
+            let r = match rng.below(5) {
+                0 | 1 => json!({"var": ""}),
+                2 => json!({"log": {"var": ""}}),
+                3 => json!({"cat": [{"var": ""}]}),
+                _ => json!({"if": [true, {"var": ""}, 0]}),
+            };
+            (r, Value::String(text))
+        }
         5 => {
             // deep data walked / stringified by a shallow rule
             let lv = rng.range(40, 122);
